@@ -193,9 +193,19 @@ class TopoModel(Model):
             if out[0] != 'ok':
                 raise RuntimeError(f'root {root}: {ev} -> {out}')
         self._last_ev = ('root-' + root,)
+        self.shadow = None
+        if script and 'c08' in self.oracles:
+            # the model that is worked on is a COPY (same element ids, new graph id) of an older model that stays in the
+            # store next to it: whatever is removed from the copy, the older model keeps exactly what it has
+            text = self.t.serialize()
+            old_gid = self.t.graph_model.graph_id
+            t2 = ExperimentTopology() if self.flavour == 'exp' else SubstrateTopology()
+            t2.load(graph_string=text, new_graph_id='working-copy')
+            self.t = t2
+            self.shadow = (old_gid, Raw(old_gid).exact())
 
     def snapshot(self):
-        return (world.snapshot_shared(), world.UUID_SEAM.counter, self.t.graph_model.graph_id)
+        return (world.snapshot_shared(), world.UUID_SEAM.counter, self.t.graph_model.graph_id, getattr(self, 'shadow', None))
 
     def restore(self, snap):
         world.restore_shared(snap[0])
@@ -205,6 +215,7 @@ class TopoModel(Model):
             from fim.graph.slices.networkx_asm import NetworkxASM
             self.t.graph_model = NetworkxASM(graph_id=snap[2], importer=world.shared_importer())
             world.UUID_SEAM.counter = snap[1]
+        self.shadow = snap[3] if len(snap) > 3 else None
 
     def raw(self):
         return Raw(self.t.graph_model.graph_id)
@@ -1638,6 +1649,13 @@ def _after_prefix(self, ev):
 
 def _invariant(self):
     v = []
+    sh = getattr(self, 'shadow', None)
+    if sh is not None and Raw(sh[0]).exact() != sh[1]:
+        now = Raw(sh[0])
+        gone = sorted(set(sh[1][0]) - set(now.nodes))
+        call = getattr(self, '_last_ev', ('?',))
+        v.append((f'c08/other-model-in-the-store-changed/{call[0] if call[0] != "fail" else call[1]}',
+                  f'{call}: the older model {sh[0]} (same element ids, another graph id) lost {gone[:4]} / changed'))
     raw = self.raw()
     inv, scopes = c07_invariants(raw)
     # name the call that produced a duplicate name (a known finding is tied to its call site)
